@@ -24,6 +24,9 @@ UNIV = {
     # large tables (other remainder typecodes): 16-bit remainders ("I") and 8-bit remainders ("B"); both table ends
     "E": (16, [(hi, lo) for hi in (0, 1, 65535) for lo in (1, 65535)]),
     "F": (24, [(hi, lo) for hi in (0, 1, 16777215) for lo in (1, 255)]),
+    # three / four hashes of one home slot at the end of the table (runs that wrap around): small enough to enumerate HISTORIES with look-ups
+    "G": (5, [(28, 1), (28, 2), (28, 3)]),
+    "H": (5, [(28, 1), (28, 2), (28, 3), (0, 1)]),
 }
 
 
@@ -47,7 +50,8 @@ cMerge == {{{", ".join("<<" + tlc.tla_val(set(tuple(h) for h in T)) + ", " + str
     )
 
 
-def cfg(univ, maxq, maxel, nparts, part, mode):
+def cfg(univ, maxq, maxel, nparts, part, mode, hv=None):
+    hv = hv or {}
     hb, _ = UNIV[univ]
     inv = """INVARIANT TypeOK
 INVARIANT CountIsSize
@@ -65,9 +69,10 @@ PROPERTY SetSemantics
   HB = {hb}
   MaxQ = {maxq}
   MaxEl = {maxel}
-  MaxDepth = 40
+  MaxDepth = {hv.get("maxdepth", 40)}
   Q0s <- cQ0s
   Autos <- cAutos
+  Queries = {"TRUE" if hv.get("queries") else "FALSE"}
   RszArgs <- cRsz
   MergeOps <- cMerge
   NPARTS = {nparts}
@@ -75,7 +80,7 @@ PROPERTY SetSemantics
   EmitLayout = {"TRUE" if hb <= 8 else "FALSE"}
 INIT Init
 NEXT Next
-VIEW View
+VIEW {"ViewH" if hv.get("histview") else "View"}
 CONSTRAINT Bound
 {inv if mode == "mc" else "ACTION_CONSTRAINT Emit"}
 CHECK_DEADLOCK FALSE
@@ -137,6 +142,8 @@ class Ctx:
             qf.remove_alt(hval(self.hb, o[1]))
         elif nm == "rsz":
             qf.resize(None if o[1] == 0 else o[1])
+        elif nm == "chk":
+            qf.check_alt(hval(self.hb, o[1]))
         elif nm == "mrg":
             second = self.QF(quotient=o[2], auto_expand=False)
             for h in sorted(hval(self.hb, x) for x in o[1]):
@@ -314,8 +321,10 @@ def profiles(tier, light=False):
     mB = [([(0, 1), (28, 6)], 3), ([(28, 1), (28, 2), (28, 3)], 3)]
     mC = [([(31, 3), (1, 3)], 3), ([(6, 9), (7, 9), (13, 3)], 4)]
     mD = [([(56, 1), (0, 1)], 3), ([(8, 1), (8, 2), (8, 3)], 5)]
+    hvq = dict(q0s=[3], autos=[False], maxq=3, maxel=4, rsz=[], merges=[], histview=True, queries=True)
     if tier == "quick" and light:
         return [
+            dict(hvq, univ="G", nparts=1, maxdepth=4),
             dict(univ="A", q0s=[3], autos=[False, True], maxq=4, maxel=2, rsz=[0, 3, 4], merges=mA[:1], nparts=1),
             dict(univ="B", q0s=[3], autos=[False], maxq=3, maxel=6, rsz=[0, 3], merges=mB[:1], nparts=1),
         ]
@@ -326,8 +335,10 @@ def profiles(tier, light=False):
             dict(univ="C", q0s=[3], autos=[False, True], maxq=4, maxel=3, rsz=[0, 3, 4], merges=mC, nparts=1),
             dict(univ="E", q0s=[16], autos=[False], maxq=16, maxel=3, rsz=[16], merges=[], nparts=1),
             dict(univ="F", q0s=[24], autos=[False], maxq=24, maxel=2, rsz=[], merges=[], nparts=1),
+            dict(hvq, univ="G", nparts=1, maxdepth=5),       # every history of 4 operations + 1, look-ups included
         ]
     return [
+        dict(hvq, univ="H", nparts=1, maxdepth=6),
         dict(univ="A", q0s=[3], autos=[False], maxq=3, maxel=8, rsz=[0, 3], merges=mA, nparts=12),
         dict(univ="A", q0s=[3, 4], autos=[False, True], maxq=5, maxel=5, rsz=[0, 2, 3, 4, 5], merges=mA, nparts=12),
         dict(univ="B", q0s=[3], autos=[False, True], maxq=4, maxel=9, rsz=[0, 3, 4], merges=mB, nparts=8),
@@ -345,11 +356,12 @@ def run(focus, tier, seed):
         mod = mc_module(p["univ"], p["q0s"], p["autos"], p["rsz"], p["merges"])
         const = {k: p[k] for k in ("univ", "q0s", "autos", "maxq", "maxel", "rsz")}
         # design level: TLC checks the invariants on the model
-        jobs.append(dict(module=mod, cfg=cfg(p["univ"], p["maxq"], p["maxel"], 1, 0, "mc"), workers=2 if tier == "quick" else 4,
-                         timeout=3000, tag=("mc", const)))
+        if not p.get("histview"):
+            jobs.append(dict(module=mod, cfg=cfg(p["univ"], p["maxq"], p["maxel"], 1, 0, "mc"), workers=2 if tier == "quick" else 4,
+                             timeout=3000, tag=("mc", const)))
         # binding: emit every transition (partitioned over TLC processes), replay into the real class
         for i in range(p["nparts"]):
-            jobs.append(dict(module=mod, cfg=cfg(p["univ"], p["maxq"], p["maxel"], p["nparts"], i, "emit"), workers=1, timeout=3000,
+            jobs.append(dict(module=mod, cfg=cfg(p["univ"], p["maxq"], p["maxel"], p["nparts"], i, "emit", p), workers=1, timeout=3000,
                              params={"univ": p["univ"]}, tag=("emit", const)))
     t, rs = s2c.run_s2c(MOD, focus, jobs, tlc_parallel=9)
     total.merge(t)
